@@ -13,14 +13,14 @@ import (
 )
 
 type cobraModel struct {
-	c        *Ctx
-	fns      []*ssa.Function
-	cmdOf    map[ssa.Value]string            // alloc of a cobra.Command literal -> global name
-	handler  map[*ssa.Function]string        // RunE-like closure -> command global
-	persist  map[*ssa.Function]bool          // closure stored in a Persistent* hook
-	parent   map[string]string               // child -> parent
-	all      []string                        // all command globals
-	callers  map[*ssa.Function][]ssa.CallInstruction
+	c       *Ctx
+	fns     []*ssa.Function
+	cmdOf   map[ssa.Value]string     // alloc of a cobra.Command literal -> global name
+	handler map[*ssa.Function]string // RunE-like closure -> command global
+	persist map[*ssa.Function]bool   // closure stored in a Persistent* hook
+	parent  map[string]string        // child -> parent
+	all     []string                 // all command globals
+	callers map[*ssa.Function][]ssa.CallInstruction
 }
 
 func (c *Ctx) buildCobraModel() *cobraModel {
